@@ -16,6 +16,7 @@ import (
 	"path/filepath"
 	"sort"
 	"strings"
+	"unicode/utf8"
 
 	"github.com/openGemini/openGemini/engine/index"
 	"github.com/openGemini/openGemini/engine/index/sparseindex"
@@ -113,11 +114,18 @@ func (b *bcase) classifyText(row []sval) string {
 		w := txWriteTokens(x.s)
 		for _, t := range q {
 			if !w[t] {
-				classes["unexplained"] = true
+				if !utf8.ValidString(x.s) {
+					// both tokenizers take the width of a character from its first byte alone: a stray
+					// continuation byte or a lead byte without its continuation bytes (Latin-1 text)
+					// swallows the ASCII bytes behind it, while the row matcher cuts at every byte >= 0x80
+					classes["text_malformed_utf8_swallows_following_bytes"] = true
+				} else {
+					classes["unexplained"] = true
+				}
 			}
 		}
 	})
-	for _, k := range []string{"unexplained", "text_phrase_without_token_prunes_all"} {
+	for _, k := range []string{"unexplained", "text_phrase_without_token_prunes_all", "text_malformed_utf8_swallows_following_bytes"} {
 		if classes[k] {
 			if k == "unexplained" {
 				return ""
